@@ -374,6 +374,9 @@ func (e *Engine) chooseP(st *State, guardsIn []*smt.Term, payload []uint64, what
 		return only, pl(only)
 	}
 	st.SymBr++
+	if e.Opt.Verbose > 2 {
+		fmt.Fprintf(os.Stderr, "CHOOSE %s at %s (%d alternatives)\n", what, e.instrPos(st), len(guards))
+	}
 	var feas []int
 	var models []map[string]uint64
 	modelPick := -1
